@@ -946,9 +946,13 @@ func (m *Nitro) StoreToDisk(dir string, snap *Snapshot, concurr int, itmCallback
 	files := make([]string, shards)
 	checksums := make([]uint32, shards)
 	defer func() {
+		// The item data is still buffered: a failed flush or close means the
+		// backup is incomplete and must not be reported as a success
 		for _, w := range writers {
 			if w != nil {
-				w.Close()
+				if cerr := w.Close(); cerr != nil && err == nil {
+					err = cerr
+				}
 			}
 		}
 	}()
@@ -973,7 +977,9 @@ func (m *Nitro) StoreToDisk(dir string, snap *Snapshot, concurr int, itmCallback
 		defer func() {
 			for _, w := range deltaWriters {
 				if w != nil {
-					w.Close()
+					if cerr := w.Close(); cerr != nil && err == nil {
+						err = cerr
+					}
 				}
 			}
 		}()
@@ -1006,7 +1012,12 @@ func (m *Nitro) StoreToDisk(dir string, snap *Snapshot, concurr int, itmCallback
 		snap = &fakeSnap
 
 		defer func() {
-			if err = m.changeDeltaWrState(dwStateTerminate, nil, nil); err == nil {
+			// Terminate the delta writers in any case, but never replace an
+			// earlier failure of the backup by the result of the hand-shake
+			if terr := m.changeDeltaWrState(dwStateTerminate, nil, nil); err == nil {
+				err = terr
+			}
+			if err == nil {
 				bs, _ := json.Marshal(deltaFiles)
 				verifPathPoint(VpStoreBeforeManifest, filepath.Join(deltadir, "files.json"))
 				err = ioutil.WriteFile(filepath.Join(deltadir, "files.json"), bs, 0660)
